@@ -132,9 +132,11 @@ pub fn gen_fmt_value(rng: &mut Rng) -> (i128, i32) {
     (i, off)
 }
 
-const LITERAL_CHARS: [char; 40] = [
+const LITERAL_CHARS: [char; 52] = [
     ' ', '/', '-', ':', '.', ',', '_', '(', ')', '[', '#', '+', '*', 'T', 'Z', 'z', 'A', 'B', 'c', 'u', 'j', 'l', 'o', 'p', 'r', 't', 'v', 'E', 'F', 'Y', 'W', 'é', 'ü', '日', '🕰',
     '0', '1', '7', '9', '"',
+    // white space and control characters, Unicode numerics that are not ASCII digits, combining and zero-width marks
+    '\n', '\r', '\t', '\u{a0}', '½', '②', 'Ⅳ', '٣', '\u{301}', '\u{200b}', '\u{7f}', '\\',
 ];
 
 fn kinds() -> [Kind; 3] {
@@ -184,9 +186,17 @@ pub fn gen_pattern(rng: &mut Rng, kind: Kind) -> String {
             }
             6 | 7 => {
                 let c = *rng.pick(&LITERAL_CHARS);
-                let w = 1 + rng.below(3);
+                // mostly short; sometimes a long run of one literal character (separator lines): around 255/256 and
+                // 65 535/65 536, where a run length kept in a u8 / u16 saturates or wraps
+                let w = if rng.chance(1, 40) { *rng.pick(&[200u64, 254, 255, 256, 257, 300, 511, 512, 1_000, 65_535, 65_536, 65_537, 70_000]) } else { 1 + rng.below(3) };
+                if p.ends_with(c) {
+                    p.push('|');
+                }
                 for _ in 0..w {
                     p.push(c);
+                }
+                if w >= 200 {
+                    p.push('|');
                 }
             }
             8 => {
@@ -335,6 +345,7 @@ pub fn run(ctx: &Ctx) -> PropResult {
         per
     );
     meta.required_bins = vec![
+        "local-twin/zone-switch-judged",
         "shape/doubled-apostrophe", "shape/quoted-segment", "shape/over-long-run", "shape/multi-byte-literal", "shape/other-type's-symbol",
         "DateTime:h1/hour0", "DateTime:h2/hour12", "DateTime:k2/hour0", "DateTime:K1/hour12", "DateTime:b3/noon", "DateTime:b5/midnight", "DateTime:b1/noon±1s",
         "DateTime:y1/negative", "DateTime:y4/5+digits", "DateTime:y7/<4digits", "DateTime:w1/week53", "DateTime:w2/week1", "DateTime:G4/BC", "DateTime:e7/BC",
